@@ -12,7 +12,10 @@ import (
 
 func getMessage(fields map[string]any) (string, error) {
 	if len(fields) == 1 {
-		return fields["message"].(string), nil
+		// a message that is not a string (message=5i) is rendered like a message with further fields
+		if msg, ok := fields["message"].(string); ok {
+			return msg, nil
+		}
 	}
 	buf := bytes.NewBuffer(make([]byte, 0, 1000))
 	encoder := logfmt.NewEncoder(buf)
